@@ -87,6 +87,8 @@ def run(ctx):
     limit_rule(ctx, syn)
     argtype_rule(ctx, syn)
     align_rule(ctx, syn)
+    cursor_rule(ctx, syn)
+    print_rule(ctx, syn)
 
     # ---------------- keyword tables
     r_kw = ctx.rule("C09.KW", "every keyword a printer can emit is accepted by the parser")
@@ -446,3 +448,120 @@ def align_rule(ctx, syn):
                 if grow[a] != grow[b]:
                     ctx.report(r, "%s|%s/%s" % (f.qual, a, b), "%s grows `%s` %d time(s) but `%s` %d time(s); the two are consumed zipped (to_string), so items beyond the shorter one are silently dropped" % (f.qual, a, grow[a], b, grow[b]), f.file, f.line)
     ctx.floor(r, len(pairs), 1, "zipped field pairs")
+
+
+def cursor_rule(ctx, syn):
+    """the parser threads one cursor: `let (arg, remainder, _) = get_arg(q)?` consumes q; the next argument must
+    be read from `remainder` (or from q after `q = remainder`).  Reading from q again re-reads the same
+    argument - the keyword just parsed is taken for the next argument."""
+    from synq import walk, unparse, strip, pat_names
+    r = ctx.rule("C09.CURSOR", "no parser function reads an argument twice from the same, already consumed input position (each get_arg/parse_name/... continues from the previous remainder)")
+    READERS = ("get_arg", "parse_name", "parse_offset", "parse_attributes", "parse_qualifiers", "parse_text_qualifiers")
+    n = 0
+
+    def call_reader(e):
+        e = strip(e)
+        while e.get("k") == "try":
+            e = strip(e["e"])
+        if e.get("k") == "call":
+            fn = unparse(e["func"]).split("::")[-1]
+            if fn in READERS and e["args"]:
+                a = strip(e["args"][-1])
+                if a.get("k") == "path" and len(a["path"]) == 1:
+                    return fn, a["path"][0]
+        return None
+
+    def scan(block, stale, f):
+        nonlocal n
+        stale = set(stale)
+        for st in block["stmts"]:
+            k = st.get("k")
+            e = st.get("init") if k == "let" else (st.get("e") if k == "exprstmt" else None)
+            if e is None:
+                continue
+            # nested control flow inherits the stale set (each branch separately)
+            for sub in walk(e):
+                if sub.get("k") in ("if", "match", "for", "while", "loop", "blockexpr") and sub is not e:
+                    pass
+            cr = call_reader(e) if k == "let" else None
+            if cr:
+                fn, src = cr
+                n += 1
+                r.hit("%s|%s(%s)#%d" % (f.qual, fn, src, n))
+                if src in stale:
+                    ctx.report(r, "%s|%s(%s)" % (f.qual, fn, src), "%s reads another argument with %s(%s) although `%s` was already consumed by an earlier read whose remainder was bound to a new name: the same text is read again (a qualifier keyword is then taken for the next argument)" % (f.qual, fn, src, src), f.file, st.get("l"))
+                bound = pat_names(st["pat"])
+                if src not in bound:
+                    stale.add(src)
+                for b_ in bound:
+                    stale.discard(b_)
+            elif k == "let":
+                for b_ in pat_names(st["pat"]):
+                    stale.discard(b_)
+            ex = strip(e)
+            if ex.get("k") == "assign" and ex["left"].get("k") == "path" and len(ex["left"]["path"]) == 1:
+                stale.discard(ex["left"]["path"][0])
+            # descend
+            for sub in ([ex] if ex.get("k") in ("if", "match", "for", "while", "loop", "blockexpr") else []):
+                descend(sub, stale, f)
+        return stale
+
+    def descend(e, stale, f):
+        k = e.get("k")
+        if k == "if":
+            scan(e["then"], stale, f)
+            if e.get("else") is not None:
+                descend(strip(e["else"]), stale, f)
+        elif k == "blockexpr":
+            scan(e["block"], stale, f)
+        elif k == "match":
+            for a in e["arms"]:
+                b = strip(a["body"])
+                if b.get("k") == "blockexpr":
+                    scan(b["block"], stale, f)
+        elif k in ("for", "while", "loop"):
+            scan(e["body"], stale, f)
+    for f in syn.fns:
+        if f.file != "src/api/query.rs" or f.body is None or not (f.name.startswith("parse") or f.name in ("try_from",)):
+            continue
+        ctx.functions_analysed.add(f.qual)
+        scan(f.body, set(), f)
+    ctx.floor(r, n, 25, "argument reads in the parser")
+
+
+def print_rule(ctx, syn):
+    """Query::to_string writes out every part of a query that the parser reads: a field of Query that the
+    printer never touches is lost by print -> parse"""
+    from synq import walk, find, unparse, strip
+    r = ctx.rule("C09.PRINT", "Query::to_string uses every field of Query that the parser fills (directly or through its accessor), and separates sub-queries")
+    st = syn.structs.get("Query")
+    ts = [f for f in syn.fns if f.name == "to_string" and (f.self_ty or "").startswith("Query") and f.file == "src/api/query.rs" and f.body is not None]
+    if st is None or len(ts) != 1:
+        ctx.anchor_missing(r, "struct Query / Query::to_string")
+        return
+    ts = ts[0]
+    ctx.functions_analysed.add(ts.qual)
+    src = unparse(ts.body)
+    # accessor -> field
+    acc = {}
+    for f in syn.fns:
+        if (f.self_ty or "").startswith("Query") and f.file == "src/api/query.rs" and f.body is not None and not f.sig["inputs"]:
+            m = re.findall(r"self\.(\w+)", unparse(f.body))
+            if m and len(set(m)) == 1:
+                acc.setdefault(f.name, m[0])
+    used = set(re.findall(r"self\.(\w+)\b(?!\()", src))
+    for name, fld in acc.items():
+        if re.search(r"self\.%s\(\)" % name, src):
+            used.add(fld)
+    skip = {"contextvars": "bound programmatically, not part of the query text", "constraint_attributes": "printed through constraints_with_attributes()"}
+    for fl in st["fields"]:
+        nm = fl["name"]
+        if nm in skip:
+            continue
+        r.hit("field:" + nm, sample={"field": nm, "printed": nm in used})
+        if nm not in used:
+            ctx.report(r, "field:" + nm, "Query::to_string never uses the field `%s` of Query: whatever the parser stores there is lost when a query is printed and parsed again" % nm, ts.file, ts.line)
+    seps = [lp for lp in find(ts.body, "for") if "subqueries" in unparse(lp["iter"])]
+    r.hit("subquery-separator")
+    if not seps or not any("|" in (lit.get("v") or "") for lp in seps for lit in walk(lp["body"]) if lit.get("k") == "lit" and lit.get("t") in ("str", "char")):
+        ctx.report(r, "subquery-separator", "Query::to_string writes several sub-queries without the `|` separator the parser requires between them", ts.file, ts.line)
